@@ -33,6 +33,9 @@ def verify_contract(world, k, use_cvc5=True):
     except (Unsupported, SpecError) as e:
         rep.error = '%s: %s' % (type(e).__name__, e)
     except Exception as e:     # engine bug: never a verdict
+        import os
+        if os.environ.get('PYVC_RAISE'):
+            raise
         rep.error = "engine error: %s | %s" % (e, " <- ".join(traceback.format_exc().strip().splitlines()[-6:]))
     rep.time_s = time.time() - t0
     return rep
